@@ -56,6 +56,12 @@ def cases(tier):
         for marker in ('none', 'own', 'other', 'both'):
             for ch, cb, et in (([dch], [], []), ([], [db_cbc[0]], [db_etm[0]]), ([dch], [db_cbc[0]], [db_etm[0]]), ([], [], [])):
                 out.append((role, marker, tuple(ch), tuple(cb), tuple(et), 'hangup'))
+    # the two directions of a KEXINIT differ in exactly what the rule looks at (ETM MACs / CBC ciphers / ChaCha in one direction only):
+    # the rule is evaluated on ONE half - the peer's own sending direction - never on a mixture of the two
+    for role in ('server', 'client'):
+        for marker in ('none', 'own'):
+            for shape in ('etm-own-only', 'etm-other-only', 'cbc-own-only', 'cbc-other-only', 'chacha-own-only', 'chacha-other-only', 'cbc-own+etm-other', 'cbc-other+etm-own'):
+                out.append((role, marker, (), (), (), 'asym:' + shape))
     # long lists: the relevant name behind N other names, N on both sides of 50, 64, 128 and 255
     for role in ('server', 'client'):
         for marker in ('none', 'own'):
@@ -70,7 +76,7 @@ CTX_BANNER = {'default': b'SSH-2.0-OpenSSH_9.6', 'mixed': b'SSH-2.0-OpenSSH_9.6'
 
 def banner_of(case):
     ctx = case[5] if len(case) > 5 else 'default'
-    return CTX_BANNER['default' if ctx.startswith('long:') else ctx]
+    return CTX_BANNER['default' if ctx.startswith(('long:', 'asym:')) else ctx]
 
 
 def kind(name):
@@ -91,6 +97,8 @@ def build(case):
         kex.append(other)
     enc = [FILL_ENC if ctx != 'flawless' else 'aes256-gcm@openssh.com'] + list(ch) + list(cb)
     mac = [FILL_MAC if ctx != 'flawless' else 'hmac-sha2-512-etm@openssh.com'] + [m for m in et if ctx != 'flawless' or m != 'hmac-sha2-512-etm@openssh.com']
+    if ctx.startswith('asym:'):
+        return kex, [FILL_ENC], [FILL_MAC]
     if ctx.startswith('long:'):
         n = int(ctx[5:])
         enc = ['filler-enc-%03d@example.org' % i for i in range(n - 1)] + [FILL_ENC] + list(ch) + list(cb)
@@ -111,12 +119,47 @@ def run_one(case, fmt):
     role, marker, ch, cb, et = case[:5]
     kex, enc, mac = build(case)
     opts = ['-n'] + (['-j'] if fmt == 'json' else [])
+    if len(case) > 5 and case[5].startswith('asym:'):
+        return run_asym(case, fmt, kex, opts)
     hang = len(case) > 5 and case[5] == 'hangup'
     if role == 'server':
         srv = peer.Server(kex=kex, enc=enc, mac=mac, banner=banner_of(case))
         return H.audit(srv, opts=opts + ['--skip-rate-test'], faults={('srv', 0, 1): ('then_reset',)} if hang else None), kex, enc, mac
     cli = peer.Client(kex=kex, enc=enc, mac=mac, banner=banner_of(case))
     return H.client_audit(cli, opts=opts, faults={('cli', 0, 1): ('then_reset',)} if hang else None), kex, enc, mac
+
+
+ASYM = {'etm': 'hmac-sha2-256-etm@openssh.com', 'cbc': 'aes128-cbc', 'chacha': 'chacha20-poly1305@openssh.com'}
+
+
+def asym_halves(shape):
+    """-> (own-direction ciphers, own-direction MACs, other-direction ciphers, other-direction MACs)"""
+    oe, om, xe, xm = [FILL_ENC], [FILL_MAC], [FILL_ENC], [FILL_MAC]
+    for part in shape.split('+'):
+        what, where = part.split('-')[0], part.split('-')[1]
+        tgt_e, tgt_m = (oe, om) if where == 'own' else (xe, xm)
+        if what == 'etm':
+            tgt_m.append(ASYM['etm'])
+        else:
+            tgt_e.append(ASYM[what])
+    # a CBC cipher / ETM MAC needs its counterpart to matter: give the single-sided shapes the counterpart in BOTH directions
+    if shape.startswith('etm-'):
+        oe.append(ASYM['cbc'])
+        xe.append(ASYM['cbc'])
+    if shape.startswith('cbc-') and '+' not in shape:
+        om.append(ASYM['etm'])
+        xm.append(ASYM['etm'])
+    return oe, om, xe, xm
+
+
+def run_asym(case, fmt, kex, opts):
+    role, shape = case[0], case[5][5:]
+    oe, om, xe, xm = asym_halves(shape)
+    if role == 'server':       # a server's own sending direction is server-to-client
+        srv = peer.Server(kex=kex, enc=oe, mac=om, enc_c2s=xe, mac_c2s=xm, banner=banner_of(case))
+        return H.audit(srv, opts=opts + ['--skip-rate-test']), kex, oe, om
+    cli = peer.Client(kex=kex, enc=oe, mac=om, enc_s2c=xe, mac_s2c=xm, banner=banner_of(case))
+    return H.client_audit(cli, opts=opts), kex, oe, om
 
 
 def check_case(case, st):
@@ -170,6 +213,10 @@ def check_case(case, st):
                 for cat, lst in acts.get('add', {}).items():
                     added += [x['name'] for x in lst]
         exp_flagged = [] if has_marker else [('enc', n) for n in v_enc] + [('mac', n) for n in v_mac]
+        if len(case) > 5 and case[5].startswith('asym:') and role == 'client':
+            # a client audit lists the other direction; a warning can only be seen on a name that is listed there too
+            _oe, _om, xe, xm = asym_halves(case[5][5:])
+            exp_flagged = [(c, n) for c, n in exp_flagged if n in (xe if c == 'enc' else xm)]
         exp_noted = V if (has_marker and V) else None
         if sorted(flagged) != sorted(exp_flagged):
             miss = [n for c, n in exp_flagged if (c, n) not in flagged]
@@ -185,6 +232,8 @@ def check_case(case, st):
             problems.append(('advisory-note:%s:%s' % (fmt, ','.join(n if kind(n) == 'db' else kind(n) for n in bad)),
                              'advisory note lists %s, expected %s' % (noted, exp_noted)))
         for n in added:
+            if len(case) > 5 and case[5].startswith('asym:'):
+                break       # which half decides what counts as "disabled by the operator" is not fixed by the property when the halves differ
             if T.is_chacha(n) or T.is_cbc(n) or T.is_etm(n):
                 problems.append(('recommends-adding:%s:%s' % (fmt, n), 'recommended for addition: %s' % n))
     return problems
